@@ -243,6 +243,8 @@ def gen_world(rs: int, P: dict) -> dict:
     }
     if P["net"] == "stochastic":
         net["early_departure"] = r.random() < P["stoch_early"]
+    if sub(rs, "call_form").random() < 0.3:
+        net["positional"] = True      # constructor arguments passed by position, in the released order
 
     # simulation parameters
     rsim = sub(rs, "sim")
